@@ -70,6 +70,22 @@ def _close(a, b, rtol, atol, normwise=False):
     return None
 
 
+def _heavy_view(x):
+    """For MuJoCo / G1 states only the physical state and the task bookkeeping are compared; solver internals
+    of mjx.Data (accelerations, constraint forces, warm starts) are not well-conditioned functions of the inputs
+    in float32 (seen: 2% between the vmapped and the single program for a G1 standing on its feet)."""
+    if hasattr(x, "sim_state"):
+        d = x.sim_state
+        view = {"qpos": d.qpos, "qvel": d.qvel, "time": d.time, "t": x.t}
+        for f in ("gait_phase", "gait_frequency", "command", "step_count", "last_action", "last_contact", "feet_air_time"):
+            if hasattr(x, f):
+                view[f] = getattr(x, f)
+        return view
+    if hasattr(x, "env_state"):
+        return {"wrapper": {k: v for k, v in vars(x).items() if k != "env_state"}, "inner": _heavy_view(x.env_state)}
+    return x
+
+
 def build(name, stack):
     from checks.c02_spaces_along_rollouts import build_env
 
@@ -103,13 +119,19 @@ def modes_case(ctx: Ctx, case):
         for i in range(B if not heavy else min(B, 2)):
             one = jax.tree.map(lambda x: x[i], args)
             jout = J[fn](*one)
-            why = _close(jax.tree.map(lambda x: x[i], vout), jout, rtol, atol, normwise=heavy)
+            vi = jax.tree.map(lambda x: x[i], vout)
+            if heavy:
+                # one frame-skipped control step through a float32 contact solver: 5% norm-wise on the state
+                r_, a_ = (5e-2, 5e-3) if fn in ("transition", "reward") else (rtol, atol)
+                why = _close(_heavy_view(vi), _heavy_view(jout), r_, a_, normwise=True)
+            else:
+                why = _close(vi, jout, rtol, atol)
             ctx.check(why is None, f"C12/{fn}/vmap-differs-from-jit", tags=tags, why=why, index=i)
             jout2 = J[fn](*one)
             ctx.check(_close(jout, jout2, 0, 0) is None, f"C12/{fn}/same-arguments-different-results", tags=tags)
             if fn in eager_fns and i == 0:
                 eout = F[fn](*one)
-                why = _close(eout, jout, rtol, atol, normwise=heavy)
+                why = _close(_heavy_view(eout), _heavy_view(jout), rtol, atol, normwise=True) if heavy else _close(eout, jout, rtol, atol)
                 ctx.check(why is None, f"C12/{fn}/eager-differs-from-jit", tags=tags, why=why)
             n_checked += 1
     ctx.count(nontrivial=True, classes=[name, tags["stack"], f"B={B}"], key=[name, stack, B, case["key"]])
